@@ -339,21 +339,7 @@ func OracleC12() *Oracle {
 			}
 			claimed = claimed.Add(cm.Claimed...)
 		}
-		params := k.GetParams(ctx)
-		seen := map[string]bool{}
-		for _, c := range params.TotalCommitted {
-			seen[c.Denom] = true
-			s, ok := sums[c.Denom]
-			if !ok {
-				s = math.ZeroInt()
-			}
-			put(m, "total_committed@denom="+denomClass(c.Denom), c.Amount.Sub(s))
-			Clauses.Inc("total_committed")
-		}
 		for d, s := range sums {
-			if !seen[d] {
-				put(m, "total_committed@denom="+denomClass(d), s.Neg())
-			}
 			if bankBacked(d) {
 				cust := w.App.BankKeeper.GetBalance(ctx, modAddr(ctypes.ModuleName), d).Amount
 				put(m, "custody_covers@denom="+denomClass(d), posPart(s.Add(claimed.AmountOf(d)).Sub(cust)))
@@ -361,13 +347,113 @@ func OracleC12() *Oracle {
 			}
 		}
 		return m
-	}}
+	},
+		// total_committed is judged per transition: ΔTotalCommitted[d] must equal ΔΣ_accounts
+		// Committed[d] in every block. The mechanism of a mismatch is classified from the
+		// per-account changes so that one root cause is identified by its call site rather than
+		// by whichever op happened to trigger it.
+		Pre: func(w *World, op *Op, plan *BlockPlan) interface{} { return snapC12(w) },
+		Post: func(t *Transition) []Finding {
+			pre := t.Pre.(*c12snap)
+			post := snapC12(t.W)
+			var out []Finding
+			denoms := map[string]bool{}
+			for d := range pre.total {
+				denoms[d] = true
+			}
+			for d := range post.total {
+				denoms[d] = true
+			}
+			for d := range pre.sum {
+				denoms[d] = true
+			}
+			for d := range post.sum {
+				denoms[d] = true
+			}
+			for d := range denoms {
+				dT := geti(post.total, d).Sub(geti(pre.total, d))
+				dS := geti(post.sum, d).Sub(geti(pre.sum, d))
+				inc, dec := math.ZeroInt(), math.ZeroInt()
+				accts := map[string]bool{}
+				for a := range pre.per[d] {
+					accts[a] = true
+				}
+				for a := range post.per[d] {
+					accts[a] = true
+				}
+				for a := range accts {
+					df := geti(post.per[d], a).Sub(geti(pre.per[d], a))
+					if df.IsPositive() {
+						inc = inc.Add(df)
+					} else {
+						dec = dec.Add(df.Neg())
+					}
+				}
+				if inc.IsPositive() {
+					Clauses.Inc("total_committed_on_commit")
+				}
+				if dec.IsPositive() {
+					Clauses.Inc("total_committed_on_uncommit")
+				}
+				Clauses.Inc("total_committed")
+				if dT.Equal(dS) {
+					continue
+				}
+				mech := "other"
+				switch {
+				case dec.IsPositive() && dT.Equal(inc.Add(dec)):
+					mech = "every_uncommitted_amount_added_to_total"
+				case dec.IsPositive() && dT.Equal(inc):
+					mech = "uncommitted_amount_not_removed_from_total"
+				case inc.IsPositive() && dT.Equal(dec.Neg()):
+					mech = "committed_amount_not_added_to_total"
+				}
+				out = append(out, Finding{Clause: "total_committed", Disc: "denom=" + denomClass(d) + ",mech=" + mech,
+					Detail: fmt.Sprintf("denom %s: TotalCommitted changed by %s but the accounts' committed amounts changed by %s (commits +%s, uncommits -%s) in op %s", d, dT, dS, inc, dec, t.Op.Name)})
+			}
+			return out
+		},
+	}
+}
+
+type c12snap struct {
+	total map[string]math.Int
+	sum   map[string]math.Int
+	per   map[string]map[string]math.Int // denom -> account -> committed
+}
+
+func geti(m map[string]math.Int, k string) math.Int {
+	if m == nil {
+		return math.ZeroInt()
+	}
+	if v, ok := m[k]; ok {
+		return v
+	}
+	return math.ZeroInt()
+}
+
+func snapC12(w *World) *c12snap {
+	ctx := w.RCtx()
+	s := &c12snap{total: map[string]math.Int{}, sum: map[string]math.Int{}, per: map[string]map[string]math.Int{}}
+	for _, c := range w.App.CommitmentKeeper.GetParams(ctx).TotalCommitted {
+		s.total[c.Denom] = c.Amount
+	}
+	for _, cm := range w.App.CommitmentKeeper.GetAllCommitments(ctx) {
+		for _, ct := range cm.CommittedTokens {
+			s.sum[ct.Denom] = geti(s.sum, ct.Denom).Add(ct.Amount)
+			if s.per[ct.Denom] == nil {
+				s.per[ct.Denom] = map[string]math.Int{}
+			}
+			s.per[ct.Denom][cm.Creator] = geti(s.per[ct.Denom], cm.Creator).Add(ct.Amount)
+		}
+	}
+	return s
 }
 
 // denomClass keeps discriminators stable across pool ids
 func denomClass(d string) string {
 	if strings.HasPrefix(d, "amm/pool/") {
-		return d
+		return "amm/pool/N"
 	}
 	return d
 }
